@@ -23,6 +23,9 @@ IDENTITIES = {
     'secret-only': {'secret': ['S3CR3T-VALUE']},
     'case-variant': {'GivenName': ['Alice'], 'MAIL': ['alice@example.org'], 'secret': ['S3CR3T-VALUE'], 'title': ['Dr']},
     'mail-other-only': {'givenName': ['Alice'], 'mail': ['alice@other.net'], 'secret': ['S3CR3T-VALUE']},
+    # attribute names that merely contain / are contained in the names a policy lists
+    'near-names': {'givenName': ['Alice'], 'givenNameX': ['NEAR-1'], 'mailbox': ['NEAR-2'], 'mai': ['NEAR-3'], 'titles': ['NEAR-4'],
+                   'xmail': ['NEAR-5'], 'secret': ['S3CR3T-VALUE']},
 }
 RESTR = {
     'absent': 'ABSENT',
